@@ -264,6 +264,7 @@ func (x *Exec) mergeStates(all []*State, base, nuniv int, join *ssa.BasicBlock) 
 	}
 	// errors reported by callees: a branch that did not see the call says nothing
 	m.errSeen = nil
+	m.errVal = nil
 	{
 		sites := map[string]bool{}
 		for _, st := range all {
@@ -293,6 +294,29 @@ func (x *Exec) mergeStates(all []*State, base, nuniv int, join *ssa.BasicBlock) 
 				m.errSeen[k] = first
 			} else {
 				m.errSeen[k] = and(parts...)
+			}
+			// the value: an ite chain over the branches that saw the call
+			var tag, box string
+			okAll := true
+			for i := len(all) - 1; i >= 0; i-- {
+				v, has := all[i].errVal[k]
+				if !has {
+					if _, seen := all[i].errSeen[k]; seen {
+						okAll = false
+					}
+					continue
+				}
+				if tag == "" {
+					tag, box = v[0], v[1]
+				} else {
+					tag, box = ite(guards[i], v[0], tag), ite(guards[i], v[1], box)
+				}
+			}
+			if okAll && tag != "" {
+				if m.errVal == nil {
+					m.errVal = map[string][2]string{}
+				}
+				m.errVal[k] = [2]string{tag, box}
 			}
 		}
 	}
